@@ -970,3 +970,26 @@ func ext۰reflect۰MapIter۰Value(fr *frame, args []value) value {
 	}
 	return makeReflectValueF(it.mt.Elem(), copyVal(it.m.vals[it.ord[it.pos]]), it.flag)
 }
+
+func ext۰reflect۰Value۰Slice(fr *frame, args []value) value {
+	t := rV2T(args[0]).t
+	if t == nil {
+		panic(valueErr(fr, "reflect.Value.Slice", args[0]))
+	}
+	lo, hi := args[1].(int), args[2].(int)
+	fl := rV2F(args[0]) & rflagRO
+	switch x := rV2V(args[0]).(type) {
+	case []value:
+		if lo < 0 || hi < lo || hi > cap(x) {
+			panic(reflectPanic(fr, "reflect.Value.Slice: slice index out of bounds"))
+		}
+		return makeReflectValueF(t, x[lo:hi], fl)
+	case string, *SymStr:
+		b := strBytes(x)
+		if lo < 0 || hi < lo || hi > len(b) {
+			panic(reflectPanic(fr, "reflect.Value.Slice: string slice index out of bounds"))
+		}
+		return makeReflectValueF(t, mkStr(b[lo:hi]), fl)
+	}
+	panic(valueErr(fr, "reflect.Value.Slice", args[0]))
+}
